@@ -55,6 +55,7 @@ type testDoc struct {
 	Markers    []marker
 	ObjStreams bool // the input uses object streams (its members are kept as lazy objects by the reader)
 	Private    bool // has string-carrying objects reachable only through keys the validator does not visit
+	Lazy       int  // undecoded object-stream members left after reading (countLazy)
 }
 
 func genDocs(r *vh.Run) []testDoc {
@@ -107,6 +108,13 @@ func sampleDocs(r *vh.Run) []testDoc {
 		}
 	}
 	sort.Strings(names)
+	// a sample whose private (AAPL:AKExtras) objects live in object streams and are never decoded: first, in both tiers
+	for i, n := range names {
+		if n == "annotTest.pdf" {
+			names = append([]string{n}, append(names[:i:i], names[i+1:]...)...)
+			break
+		}
+	}
 	limit := int64(r.Pick(250_000, 3_000_000))
 	maxN := r.Pick(6, 40)
 	var docs []testDoc
@@ -148,12 +156,15 @@ func pwPairs(r *vh.Run, a alg) []pwPair {
 var permSets = []model.PermissionFlags{model.PermissionsNone, model.PermissionsPrint, model.PermissionsAll,
 	model.PermissionsNone + model.PermissionModify + model.PermissionExtract, model.PermissionsNone + model.PermissionFillRev3 + model.PermissionAssembleRev3}
 
-// classify an end-to-end difference: the one known hole (lazy object-stream members) has its own class
+// classify an end-to-end difference: the one known hole (undecoded object-stream members are written
+// without encryption) has its own class; it can only be hit by documents that still hold such members
+// after reading (countLazy > 0) and shows as string/presence differences, never as structural ones.
 func diffClass(d testDoc, diffs []string, what string) string {
-	if d.ObjStreams && d.Private {
+	if d.Lazy > 0 {
 		all := true
 		for _, x := range diffs {
-			if !strings.Contains(x, "/VerifPriv") {
+			if !(strings.Contains(x, "string differs") || strings.Contains(x, "key present") || strings.Contains(x, "nil mismatch") ||
+				strings.Contains(x, "ciphertext") || strings.Contains(x, "string vs") || strings.Contains(x, "vs string")) {
 				all = false
 			}
 		}
@@ -185,6 +196,10 @@ func e2eC22(r *vh.Run) {
 			continue
 		}
 		r.Count("doc:" + d.Name)
+		d.Lazy = countLazy(d.Bytes)
+		if d.Lazy > 0 {
+			r.Count("doc-with-undecoded-objstream-members")
+		}
 		for _, a := range algs {
 			pairs := pwPairs(r, a)
 			for pi, pw := range pairs {
